@@ -1,40 +1,43 @@
+import SamVerif.Lemmas.FmtEval
 import SamVerif.Lemmas.Fmt
 /-!
 # C08 — Formatting a file never changes the program it denotes (expression / literal fragment)
 
-Property theorems only (helper lemmas: `Lemmas/Fmt.lean`, model: `Model/Fmt.lean`).  The model is
-tied to `crates/samlang-printer` / `crates/samlang-parser` by the `fmt-expr` correspondence
-protocol (`harness/src/bin/c08.rs` vs `Driver/C08.lean`), which compares on every run
+Property theorems only (helper lemmas: `Lemmas/FmtFull.lean`, `Lemmas/FmtEval.lean`, `Lemmas/Fmt.lean`;
+models: `Model/FmtFull.lean` expressions, `Model/FmtEval.lean` evaluation, `Model/Fmt.lean` tables and
+literals).  The model is tied to `crates/samlang-printer` / `crates/samlang-parser` by the `fmt-expr`
+correspondence protocol (`harness/src/bin/c08.rs` vs `Driver/C08.lean`), which compares on every run
 (a) the real parser's tree with `parseE`, (b) the real printer's token sequence with `printE`,
-(c) the tree of the re-parsed output with `parseE (printE e)`, and (d) "the real round trip
-succeeds" with the side condition `RT e` of the partial theorem.
+(c) the tree of the re-parsed output with `parseE (printE e)` and with `regroup e`, and
+(d) "the real round trip is exact" with `regroup e = e`.
 
-The full-strength statement
+The full-strength *tree* statement
 
     theorem roundtrip_expr (e : Expr) : parseE (printE e) = some e
 
-was **false** for the original code in four ways (known findings C08-F1 … C08-F4, all repaired by
+was false for the original code in five ways (known findings C08-F1 … F4, F6, all repaired by
 `fix:` commits, see the history note below) and is still false in one (C08-F5, same-operator
-regrouping, pinned by a golden test).
+regrouping, pinned by a golden test).  What *is* true for every expression is stated by
+`roundtrip_expr_total` (what exactly is read back) and `format_preserves_meaning` (it means the same).
 -/
-namespace SamVerif.Fmt
+namespace SamVerif.FmtFull
+open SamVerif.Fmt (BinOp UOp Val M)
 
 private def a : Expr := .atom 0
 private def b : Expr := .atom 1
 private def c : Expr := .atom 2
 
-/-! ## Expressions: what is still false, and what the fixes made true
+/-! ## What is still false, and what the fixes made true
 
-History.  On the original tree the full-strength statement had four families of counterexamples, all
-replayed on the real formatter and repaired by `fix:` commits in /repo (model updated accordingly):
-* C08-F1 `a * (b / c)` ↦ `a * b / c`, `t == (x < y)` ↦ `t == x < y`   (9730edb, 8fbb1c9)
-* C08-F3 `-(-a)` ↦ `--a`, `!(!a)` ↦ `!!a` (syntax errors)              (7a6d532)
-* C08-F4 `(a + b) :: c` ↦ `a + b :: c` = `a + (b :: c)` …              (8067f9b, parser)
-* C08-F2 `"q\"uote"` ↦ `"q"uote"`                                      (b0a5193)
-* C08-F6 `(a.b) < c` ↦ `a.b < c` (syntax error: `<` after a member name)  (0291c0a)
-What remains (C08-F5, open: the golden test `assert_reprint_expr("1 + (1 + 1)", "1 + 1 + 1")`,
-source_printer.rs tests, pins it): `a ⊕ (b ⊕ c)` with ⊕ ∈ {+, *, &&, ||} is printed `a ⊕ b ⊕ c`
-and read back as `(a ⊕ b) ⊕ c` — another tree, the same value. -/
+History.  Witnesses replayed on the real formatter and repaired by `fix:` commits in /repo:
+* C08-F1 `a * (b / c)` ↦ `a * b / c`, `t == (x < y)` ↦ `t == x < y`, `a * ((x / y) * z)`  (9730edb, 8fbb1c9)
+* C08-F3 `-(-a)` ↦ `--a`, `!(!a)` ↦ `!!a` (syntax errors)                               (7a6d532)
+* C08-F4 `(a + b) :: c` ↦ `a + b :: c` = `a + (b :: c)` …                               (8067f9b, parser)
+* C08-F2 `"q\"uote"` ↦ `"q"uote"`                                                       (b0a5193)
+* C08-F6 `(a.b) < c` ↦ `a.b < c` (syntax error: `<` after a member name)                 (0291c0a)
+What remains (C08-F5, open: the golden test `assert_reprint_expr("1 + (1 + 1)", "1 + 1 + 1")` pins
+it): `a ⊕ (b ⊕ c)` with ⊕ ∈ {+, *, &&, ||} is printed `a ⊕ b ⊕ c` and read back as `(a ⊕ b) ⊕ c`
+— another tree, the same meaning (`format_preserves_meaning`). -/
 
 /-- C08-F5: `a + (b + c)` is printed `a + b + c`, which is `(a + b) + c`. -/
 theorem shortcut_regroups_same_operator :
@@ -62,29 +65,144 @@ theorem former_witnesses_roundtrip :
     parseE (printE (.binary .concat a (.binary .mul b c))) = some (.binary .concat a (.binary .mul b c)) := by
   decide
 
-/-! ## Expressions: the round-trip theorems -/
+/-- C08-F6 (fixed by 0291c0a): `(a.b) < c` keeps its parentheses; the parser model rejects the
+unparenthesised text, accepts `<=`, and accepts `<` after explicit type arguments or a call. -/
+theorem member_name_before_lt :
+    printE (.binary .lt (.post a 0 true) b) = [.lp, .atom 0, .post 0 true, .rp, .op .lt, .atom 1] ∧
+    parseE (printE (.binary .lt (.post a 0 true) b)) = some (.binary .lt (.post a 0 true) b) ∧
+    parseE (printE (.binary .lt (.unary .neg (.post a 0 true)) b)) =
+      some (.binary .lt (.unary .neg (.post a 0 true)) b) ∧
+    parseE [.atom 0, .post 0 true, .op .lt, .atom 1] = none ∧
+    parseE [.atom 0, .post 0 true, .op .le, .atom 1] = some (.binary .le (.post a 0 true) b) ∧
+    parseE [.atom 0, .post 0 false, .op .lt, .atom 1] = some (.binary .lt (.post a 0 false) b) ∧
+    parseE [.atom 0, .lp, .rp, .op .lt, .atom 1] = some (.binary .lt (.call0 a) b) := by
+  decide
 
-/-- **Round trip under the side condition `RT`** (unbounded expressions, fuel-free): if the printer
-leaves operands without parentheses only where the parser's level structure reads them back as
-operands (`RT`, decidable, see `Model/Fmt.lean`), then the printed token sequence parses to exactly
-the original tree — same operators, same grouping, same postfix chains, same lambda bodies. -/
-theorem roundtrip_expr_partial (e : Expr) (h : RT e = true) : parseE (printE e) = some e := by
-  have hm := main_top (main e h) h (stopsAbove_nil 0)
+/-! ## The round-trip theorems -/
+
+/-- **What formatting does to every expression** (unbounded size, fuel-free, no side condition;
+operators, unary operators, member accesses with and without type arguments, calls with their
+arguments, tuples, blocks, if-else, match with its cases, lambdas — recursively in every position):
+the printed token sequence always parses, and the tree read back is `regroup e` — the original tree
+with the right spine of every shortcut node `x ⊕ (y ⊕ z)` (⊕ ∈ {+, *, &&, ||}) re-associated to
+the left, and nothing else changed. -/
+theorem roundtrip_expr_total (e : Expr) : parseE (printE e) = some (regroup e) := by
+  have hm := main_top (main e) (stopsAbove_nil 0)
   rw [List.append_nil] at hm
   have hb := B_le e
   have := hm (fuelFor (printE e)) (by simp only [fuelFor]; omega)
   simp [parseE, parseFuel, this]
 
 /-- The same in context: a printed expression followed by any input at which the loops of all
-levels stop (`)`, end of input, or another non-operator, non-postfix token) is read back as that
-expression, leaving the rest. -/
-theorem roundtrip_expr_in_context (e : Expr) (h : RT e = true) (rest : List Tok)
+levels stop (`)`, `,`, `{`, `}`, end of input, … — anything but an operator, a member access or an
+opening parenthesis) is read back as `regroup e`, leaving the rest. -/
+theorem roundtrip_expr_in_context (e : Expr) (rest : List Tok)
     (hs : ∀ t r, rest = t :: r → bl t = none) (f : Nat) (hf : fuelFor (printE e) ≤ f) :
-    parseTop f (printE e ++ rest) = some (e, rest) := by
-  have hm := main_top (main e h) h (rest := rest)
+    parseTop f (printE e ++ rest) = some (regroup e, rest) := by
+  have hm := main_top (main e) (rest := rest)
     (fun t r b ht hb => by rw [hs t r ht] at hb; cases hb)
   have hb := B_le e
   exact hm f (by simp only [fuelFor] at hf; omega)
+
+theorem eval_regroup (I : Interp) (e : Expr) : eval I (regroup e) = eval I e := (eval_rg I e).1
+
+/-- **Formatting never changes the meaning of an expression of the fragment**: the output parses,
+and the tree read back evaluates — under every interpretation of the opaque units — to the same
+value or trap with the same sequence of observable events (left-to-right evaluation of operands,
+arguments and elements, short-circuit `&&`/`||`, one branch of `if`, 32-bit wrap-around arithmetic).
+This covers the still-open tree change C08-F5. -/
+theorem format_preserves_meaning (I : Interp) (e : Expr) :
+    ∃ e', parseE (printE e) = some e' ∧ eval I e' = eval I e :=
+  ⟨regroup e, roundtrip_expr_total e, eval_regroup I e⟩
+
+mutual
+/-- no node of the expression takes the shortcut (no `x ⊕ (y ⊕ z)` with ⊕ ∈ {+,*,&&,||}, `x` not on
+⊕'s level and `y` not on ⊕'s level; C08-F5). -/
+def NoShortcut : Expr → Bool
+  | .atom _ => true
+  | .tuple e es => NoShortcut e && NoShortcutArgs es
+  | .block e => NoShortcut e
+  | .post e _ _ => NoShortcut e
+  | .call0 f => NoShortcut f
+  | .call f args => NoShortcut f && NoShortcutArgs args
+  | .unary _ e => NoShortcut e
+  | .binary o l r => NoShortcut l && NoShortcut r && !usesShortcut o l r
+  | .ifElse c t e => NoShortcut c && NoShortcut t && NoShortcut e
+  | .matchE m cs => NoShortcut m && NoShortcutCases cs
+  | .lambda _ b => NoShortcut b
+def NoShortcutArgs : Args → Bool
+  | .one e => NoShortcut e
+  | .cons e rest => NoShortcut e && NoShortcutArgs rest
+def NoShortcutCases : Cases → Bool
+  | .one _ b => NoShortcut b
+  | .cons _ b rest => NoShortcut b && NoShortcutCases rest
+end
+
+mutual
+theorem regroup_noShortcut : (e : Expr) → NoShortcut e = true → regroup e = e
+  | .atom a, _ => by simp [regroup, rg, wrapCtx]
+  | .tuple e es, h => by
+    simp only [NoShortcut, Bool.and_eq_true] at h
+    have : regroup (.tuple e es) = .tuple (regroup e) (rgArgs es) := by simp [regroup, rg, wrapCtx]
+    rw [this, regroup_noShortcut e h.1, rgArgs_noShortcut es h.2]
+  | .block e, h => by
+    have : regroup (.block e) = .block (regroup e) := by simp [regroup, rg, wrapCtx]
+    rw [this, regroup_noShortcut e (by simpa [NoShortcut] using h)]
+  | .post e p f, h => by
+    have : regroup (.post e p f) = .post (regroup e) p f := by simp [regroup, rg, wrapCtx]
+    rw [this, regroup_noShortcut e (by simpa [NoShortcut] using h)]
+  | .call0 f, h => by
+    have : regroup (.call0 f) = .call0 (regroup f) := by simp [regroup, rg, wrapCtx]
+    rw [this, regroup_noShortcut f (by simpa [NoShortcut] using h)]
+  | .call f args, h => by
+    simp only [NoShortcut, Bool.and_eq_true] at h
+    have : regroup (.call f args) = .call (regroup f) (rgArgs args) := by simp [regroup, rg, wrapCtx]
+    rw [this, regroup_noShortcut f h.1, rgArgs_noShortcut args h.2]
+  | .unary u x, h => by
+    have : regroup (.unary u x) = .unary u (regroup x) := by simp [regroup, rg, wrapCtx]
+    rw [this, regroup_noShortcut x (by simpa [NoShortcut] using h)]
+  | .binary o l r, h => by
+    simp only [NoShortcut, Bool.and_eq_true, Bool.not_eq_true'] at h
+    rw [regroup_binary, h.2, regroup_noShortcut l h.1.1, regroup_noShortcut r h.1.2]
+    simp
+  | .ifElse x y z, h => by
+    simp only [NoShortcut, Bool.and_eq_true] at h
+    have : regroup (.ifElse x y z) = .ifElse (regroup x) (regroup y) (regroup z) := by
+      simp [regroup, rg, wrapCtx]
+    rw [this, regroup_noShortcut x h.1.1, regroup_noShortcut y h.1.2, regroup_noShortcut z h.2]
+  | .matchE m cs, h => by
+    simp only [NoShortcut, Bool.and_eq_true] at h
+    have : regroup (.matchE m cs) = .matchE (regroup m) (rgCases cs) := by simp [regroup, rg, wrapCtx]
+    rw [this, regroup_noShortcut m h.1, rgCases_noShortcut cs h.2]
+  | .lambda k x, h => by
+    have : regroup (.lambda k x) = .lambda k (regroup x) := by simp [regroup, rg, wrapCtx]
+    rw [this, regroup_noShortcut x (by simpa [NoShortcut] using h)]
+theorem rgArgs_noShortcut : (es : Args) → NoShortcutArgs es = true → rgArgs es = es
+  | .one e, h => by
+    have : rgArgs (.one e) = .one (regroup e) := by simp [rgArgs, regroup]
+    rw [this, regroup_noShortcut e (by simpa [NoShortcutArgs] using h)]
+  | .cons e rest, h => by
+    simp only [NoShortcutArgs, Bool.and_eq_true] at h
+    have : rgArgs (.cons e rest) = .cons (regroup e) (rgArgs rest) := by simp [rgArgs, regroup]
+    rw [this, regroup_noShortcut e h.1, rgArgs_noShortcut rest h.2]
+theorem rgCases_noShortcut : (cs : Cases) → NoShortcutCases cs = true → rgCases cs = cs
+  | .one k x, h => by
+    have : rgCases (.one k x) = .one k (regroup x) := by simp [rgCases, regroup]
+    rw [this, regroup_noShortcut x (by simpa [NoShortcutCases] using h)]
+  | .cons k x rest, h => by
+    simp only [NoShortcutCases, Bool.and_eq_true] at h
+    have : rgCases (.cons k x rest) = .cons k (regroup x) (rgCases rest) := by simp [rgCases, regroup]
+    rw [this, regroup_noShortcut x h.1, rgCases_noShortcut rest h.2]
+end
+
+/-- **Exact round trip for every expression in which the shortcut is not taken**: the printed
+tokens parse back to exactly the original tree.  Every parenthesisation decision of the printer
+other than the shortcut (precedence classes 0/1/2/4–8/10/11/12, member name before `<`) and every
+delimited position (arguments, elements, branches, cases, bodies) is thereby proved to agree with
+the parser. -/
+theorem roundtrip_expr_noShortcut (e : Expr) (h : NoShortcut e = true) :
+    parseE (printE e) = some e := by
+  rw [roundtrip_expr_total, regroup_noShortcut e h]
 
 /-- **The recursion budget never changes an answer**: once the parser model returns a tree, every
 larger budget returns the same tree. -/
@@ -105,180 +223,43 @@ theorem paren_insensitive (ts : List Tok) (e : Expr) (h : parseE ts = some e) :
     intro r; constructor <;> intro he <;> cases he
   have hl0 := lift (Nat.le_refl 6) h6 (fun _ => hsb) 6 0 (by omega) (stopsAbove_nil 0)
   have hnk : notKw (.lp :: (ts ++ [.rp])) := by
-    intro k r; constructor <;> intro he <;> cases he
+    intro r; constructor <;> intro he <;> cases he
   have := ptop_level hl0 hnk (fuelFor (.lp :: (ts ++ [.rp])))
     (by simp only [fuelFor, List.length_cons, List.length_append, List.length_nil]; omega)
   simp [parseE, parseFuel, this]
 
-/-- C08-F6 (fixed by 0291c0a): `(a.b) < c` was printed `a.b < c`; after a member name the parser
-takes `<` for the start of type arguments, so the output did not parse. The printer now keeps the
-parentheses; the parser model still rejects the unparenthesised text. -/
-theorem member_name_before_lt :
-    printE (.binary .lt (.post a 0 true) b) = [.lp, .atom 0, .post 0 true, .rp, .op .lt, .atom 1] ∧
-    parseE (printE (.binary .lt (.post a 0 true) b)) = some (.binary .lt (.post a 0 true) b) ∧
-    parseE (printE (.binary .lt (.unary .neg (.post a 0 true)) b)) =
-      some (.binary .lt (.unary .neg (.post a 0 true)) b) ∧
-    parseE [.atom 0, .post 0 true, .op .lt, .atom 1] = none ∧
-    parseE [.atom 0, .post 0 true, .op .le, .atom 1] = some (.binary .le (.post a 0 true) b) ∧
-    parseE [.atom 0, .post 0 false, .op .lt, .atom 1] = some (.binary .lt (.post a 0 false) b) := by
-  decide
-
-/-- does the printer take the right-operand shortcut at the node `binary o l r`? -/
-def usesShortcut (o : BinOp) (l r : Expr) : Bool :=
-  l.prec != 4 + o.pprec && r.prec == 4 + o.pprec && shortcutOk o r
-
-/-- no node of the expression takes the shortcut (i.e. no `x ⊕ (y ⊕ z)` with ⊕ ∈ {+,*,&&,||}, `x`
-not on ⊕'s level and `y` not on ⊕'s level; C08-F5). -/
-def NoShortcut : Expr → Bool
-  | .atom _ | .ifElse _ | .matchE _ => true
-  | .post e _ _ => NoShortcut e
-  | .unary _ e => NoShortcut e
-  | .lambda _ b => NoShortcut b
-  | .binary o l r => NoShortcut l && NoShortcut r && !usesShortcut o l r
-
-/-- after fix 8067f9b the printer's table and the parser's level order are mirror images. -/
-theorem plevel_eq (o : BinOp) : o.plevel = 4 - o.pprec := by cases o <;> rfl
-
-theorem pprec_le4 (o : BinOp) : o.pprec ≤ 4 := by cases o <;> decide
-
-theorem lParen_true {o : BinOp} {l : Expr} (h1 : l.prec ≠ 4 + o.pprec) (h2 : l.prec ≥ 4 + o.pprec) :
-    lParen o l = true := by
-  unfold lParen
-  split
-  · rfl
-  · simp [h1, needParen, h2]
-
-/-- **On the fixed code the side condition `RT` is implied by "no shortcut taken"**: every other
-parenthesisation decision of the printer (precedence classes 0/1/2/4–8/10/11/12) agrees with the
-parser. -/
-theorem rt_of_noShortcut (e : Expr) (h : NoShortcut e = true) : RT e = true := by
-  induction e with
-  | atom a => rfl
-  | ifElse k => rfl
-  | matchE k => rfl
-  | lambda k b ih => simp only [NoShortcut] at h; simp only [RT]; exact ih h
-  | post e p fld ih =>
-    simp only [NoShortcut] at h
-    simp only [RT, Bool.and_eq_true, Bool.or_eq_true, decide_eq_true_eq]
-    refine ⟨ih h, ?_⟩
-    cases e with
-    | atom a => right; simp [Expr.lvl, Expr.operandOk]
-    | post e' p' f' => right; simp [Expr.lvl, Expr.operandOk]
-    | unary u' e' => left; simp [needParen, Expr.prec]
-    | binary o l r => left; simp [needParen, Expr.prec]; omega
-    | ifElse k => left; simp [needParen, Expr.prec]
-    | matchE k => left; simp [needParen, Expr.prec]
-    | lambda k b => left; simp [needParen, Expr.prec]
-  | unary u e ih =>
-    simp only [NoShortcut] at h
-    simp only [RT, Bool.and_eq_true, Bool.or_eq_true, decide_eq_true_eq]
-    refine ⟨ih h, ?_⟩
-    cases e with
-    | atom a => right; simp [Expr.lvl, Expr.operandOk]
-    | post e' p' f' => right; simp [Expr.lvl, Expr.operandOk]
-    | unary u' e' => left; simp [needParen, Expr.prec]
-    | binary o l r => left; simp [needParen, Expr.prec]; omega
-    | ifElse k => left; simp [needParen, Expr.prec]
-    | matchE k => left; simp [needParen, Expr.prec]
-    | lambda k b => left; simp [needParen, Expr.prec]
-  | binary o l r ihl ihr =>
-    simp only [NoShortcut, Bool.and_eq_true] at h
-    obtain ⟨⟨hl, hr⟩, hsc⟩ := h
-    have hpl := plevel_eq o
-    have hp4 := pprec_le4 o
-    simp only [RT, Bool.and_eq_true, Bool.or_eq_true, decide_eq_true_eq]
-    refine ⟨⟨⟨⟨ihl hl, ihr hr⟩, ?_⟩, ?_⟩, ?_⟩
-    · -- left operand
-      cases l with
-      | atom a => right; simp only [Expr.lvl, Expr.operandOk]; exact ⟨trivial, by omega⟩
-      | post e p f' => right; simp only [Expr.lvl, Expr.operandOk]; exact ⟨trivial, by omega⟩
-      | unary u e => right; simp only [Expr.lvl, Expr.operandOk]; exact ⟨trivial, by omega⟩
-      | ifElse k => left; exact lParen_true (by simp [Expr.prec]; omega) (by simp [Expr.prec]; omega)
-      | matchE k => left; exact lParen_true (by simp [Expr.prec]; omega) (by simp [Expr.prec]; omega)
-      | lambda k b => left; exact lParen_true (by simp [Expr.prec]; omega) (by simp [Expr.prec]; omega)
-      | binary ol l1 l2 =>
-        have hol := plevel_eq ol
-        have := pprec_le4 ol
-        by_cases hgt : o.pprec < ol.pprec
-        · left
-          have h1 : ¬ (4 + ol.pprec = 4 + o.pprec) := by omega
-          have h2 : 4 + ol.pprec ≥ 4 + o.pprec := by omega
-          have hlp : (Expr.binary ol l1 l2).prec = 4 + ol.pprec := rfl
-          exact lParen_true (by rw [hlp]; exact h1) (by rw [hlp]; exact h2)
-        · right; simp only [Expr.lvl, Expr.operandOk]; exact ⟨trivial, by omega⟩
-    · -- right operand
-      cases r with
-      | atom a => right; simp only [Expr.lvl, Expr.operandOk]; exact ⟨trivial, by omega⟩
-      | post e p f' => right; simp only [Expr.lvl, Expr.operandOk]; exact ⟨trivial, by omega⟩
-      | unary u e => right; simp only [Expr.lvl, Expr.operandOk]; exact ⟨trivial, by omega⟩
-      | ifElse k =>
-        left
-        have hrp : (Expr.ifElse k).prec = 10 := rfl
-        by_cases hlq : l.prec = 4 + o.pprec
-        · simp [rParen, needParen, hrp, hlq]; omega
-        · have : ¬ (10 = 4 + o.pprec) := by omega
-          simp [rParen, needParen, hrp, hlq, this]; omega
-      | matchE k =>
-        left
-        have hrp : (Expr.matchE k).prec = 11 := rfl
-        by_cases hlq : l.prec = 4 + o.pprec
-        · simp [rParen, needParen, hrp, hlq]; omega
-        · have : ¬ (11 = 4 + o.pprec) := by omega
-          simp [rParen, needParen, hrp, hlq, this]; omega
-      | lambda k b =>
-        left
-        have hrp : (Expr.lambda k b).prec = 12 := rfl
-        by_cases hlq : l.prec = 4 + o.pprec
-        · simp [rParen, needParen, hrp, hlq]; omega
-        · have : ¬ (12 = 4 + o.pprec) := by omega
-          simp [rParen, needParen, hrp, hlq, this]; omega
-      | binary or_ r1 r2 =>
-        have hor := plevel_eq or_
-        have := pprec_le4 or_
-        by_cases hgt : or_.pprec < o.pprec
-        · right; simp only [Expr.lvl, Expr.operandOk]; exact ⟨trivial, by omega⟩
-        · left
-          have h2 : 4 + or_.pprec ≥ 4 + o.pprec := by omega
-          have hrp : (Expr.binary or_ r1 r2).prec = 4 + or_.pprec := rfl
-          rw [usesShortcut, hrp] at hsc
-          by_cases hlq : l.prec = 4 + o.pprec
-          · simp only [rParen, needParen, hrp, hlq, h2, if_true, decide_true]
-          · have hrne : ¬ (4 + or_.pprec = 4 + o.pprec ∧ shortcutOk o (Expr.binary or_ r1 r2) = true) := by
-              intro hh
-              simp [hlq, hh.1, hh.2] at hsc
-            simp only [rParen, needParen, hrp, hlq, hrne, h2, if_false, if_true, decide_true]
-    · -- a `<` never directly follows a member name: the printer keeps those parentheses
-      by_cases hlt : o = .lt
-      · subst hlt
-        by_cases hf : lastField l = true
-        · have hm := endsMember_of_lastField l hf
-          simp [lParen, hm]
-        · simp [hf]
-      · simp [hlt]
-
-/-- **Round trip for every expression in which the shortcut is not taken** (unbounded size,
-fuel-free): the printed tokens parse back to exactly the original tree. On the fixed code this is
-the full-strength statement except for the shortcut nodes pinned by the golden test (C08-F5). -/
-theorem roundtrip_expr_noShortcut (e : Expr) (h : NoShortcut e = true) :
-    parseE (printE e) = some e :=
-  roundtrip_expr_partial e (rt_of_noShortcut e h)
-
--- non-vacuity: the side conditions are satisfiable by nested expressions of every level and class …
-example : NoShortcut (.binary .or (.binary .and a (.unary .not (.unary .not (.post (.post b 0 true) 1 false))))
-    (.binary .lt (.binary .plus a (.binary .mul (.post (.lambda 0 (.binary .plus b (.ifElse 1))) 2 true)
-        (.binary .concat c (.matchE 0))))
-      (.binary .minus (.binary .minus a b) (.binary .plus b (.unary .neg (.post (.unary .neg c) 3 true)))))) = true := by
-  decide
+-- non-vacuity: nested expressions of every level, class and delimited position …
+private def big : Expr :=
+  .binary .or (.binary .and a (.unary .not (.unary .not (.post (.post b 0 true) 1 false))))
+    (.binary .lt
+      (.binary .plus a (.binary .mul
+        (.call (.lambda 0 (.binary .plus b (.ifElse a (.binary .plus b c) (.tuple a (.one (.unary .neg b))))))
+          (.cons (.binary .plus a b) (.one (.block c))))
+        (.binary .concat c (.matchE a (.cons 0 (.binary .minus a b) (.one 1 (.call0 c)))))))
+      (.binary .minus (.binary .minus a b) (.binary .plus b (.unary .neg (.post (.unary .neg c) 3 true)))))
+example : NoShortcut big = true ∧ parseE (printE big) = some big := by decide
 example : NoShortcut (.binary .mul a (.binary .div b c)) = true := by decide
--- … and exclude exactly the remaining witness
+-- … the remaining witness is excluded, and `regroup` is what is read back
 example : NoShortcut (.binary .plus a (.binary .plus b c)) = false ∧
-    RT (.binary .plus a (.binary .plus b c)) = false := by decide
--- the concrete parser agrees with the theorems on samples
-example : parseE (printE (.binary .minus a (.binary .minus b (.unary .neg (.binary .plus a c))))) =
-    some (.binary .minus a (.binary .minus b (.unary .neg (.binary .plus a c)))) := by decide
-example : printE (.post (.lambda 0 (.binary .plus b (.ifElse 1))) 2 true) =
-    [.lp, .lam 0, .atom 1, .op .plus, .lp, .kwIf 1, .rp, .rp, .post 2 true] := by decide
+    regroup (.binary .plus a (.binary .plus b (.binary .plus c a))) =
+      .binary .plus (.binary .plus (.binary .plus a b) c) a ∧
+    regroup (.call a (.one (.binary .mul a (.binary .mul b c)))) =
+      .call a (.one (.binary .mul (.binary .mul a b) c)) := by decide
+-- the semantics is not trivial: events are ordered, arithmetic wraps around, `if` takes one branch
+private def Iex : Interp :=
+  { atom := fun n => ([n], some (.int 2147483647)), member := fun _ _ v => ([], some v),
+    call := fun _ vs => ([100 + vs.length], some (.int 0)), tuple := fun _ => ([], none),
+    matchSel := fun _ cs => ((cs.headD (0, ([], none))).2), lam := fun _ d => d }
+example : eval Iex (.binary .plus a (.binary .plus b c)) = ([0, 1, 2], some (.int 2147483645)) ∧
+    eval Iex (.binary .and a (.binary .and b c)) = ([0], some (.bool false)) ∧
+    eval Iex (.call a (.cons b (.one c))) = ([0, 1, 2, 102], some (.int 0)) ∧
+    eval Iex (.ifElse (.binary .eq a a) b c) = ([0, 0, 1], some (.int 2147483647)) ∧
+    eval Iex (.binary .plus a (.tuple b (.one c))) = ([0, 1, 2], none) := by decide
 example : parseE [.lp, .atom 0, .op .plus, .atom 1, .rp] = some (.binary .plus a b) := by decide
+
+end SamVerif.FmtFull
+
+namespace SamVerif.Fmt
 
 /-! ## String literals -/
 
@@ -342,5 +323,42 @@ theorem minus_not_merged (n : Nat) (hn : n ≠ 2147483648) (rest : List RawTok) 
   · simp [printInt, mergeMinInt]
 
 example : readInt (mergeMinInt (printInt 2147483647)) = some 2147483647 := by decide
+
+
+/-! ## Legacy: the round-2 model `Model/Fmt.lean` (opaque call arguments / if / match)
+
+Kept because `Props/C09b.lean` and `Props/C13b.lean` are stated over it.  It is the restriction of
+`Model/FmtFull.lean` to expressions whose call arguments, if-else and match parts are single words;
+the driver runs both models on every line of the `fmt-expr` protocol that lies in the smaller
+fragment and reports any difference (`v2=` field), so it stays tied to the code. -/
+
+/-- (legacy model) **Round trip under the side condition `RT`** (unbounded expressions, fuel-free): if the printer
+leaves operands without parentheses only where the parser's level structure reads them back as
+operands (`RT`, decidable, see `Model/Fmt.lean`), then the printed token sequence parses to exactly
+the original tree — same operators, same grouping, same postfix chains, same lambda bodies. -/
+theorem roundtrip_expr_partial (e : Expr) (h : RT e = true) : parseE (printE e) = some e := by
+  have hm := main_top (main e h) h (stopsAbove_nil 0)
+  rw [List.append_nil] at hm
+  have hb := B_le e
+  have := hm (fuelFor (printE e)) (by simp only [fuelFor]; omega)
+  simp [parseE, parseFuel, this]
+
+/-- (legacy model) **Redundant parentheses are invisible to the parser** (used by C13): if a complete token
+sequence parses to `e`, so does the same sequence wrapped in one more pair of parentheses. -/
+theorem paren_insensitive (ts : List Tok) (e : Expr) (h : parseE ts = some e) :
+    parseE (.lp :: (ts ++ [.rp])) = some e := by
+  have h0 := parseFuel_some h
+  have h1 : PTop (fuelFor ts) (ts ++ [.rp]) e [.rp] :=
+    ptop_of_some (by simpa using (ext_all (fuelFor ts)).1 ts e [] h0)
+  have h6 := plevel6 (Nat.le_refl 6) (pbase_paren h1) (ploop_stop_of (e := e) (stopsAbove_nil 0) (Nat.zero_le 6))
+  have hsb : startsBase (.lp :: (ts ++ [.rp])) := by
+    intro r; constructor <;> intro he <;> cases he
+  have hl0 := lift (Nat.le_refl 6) h6 (fun _ => hsb) 6 0 (by omega) (stopsAbove_nil 0)
+  have hnk : notKw (.lp :: (ts ++ [.rp])) := by
+    intro k r; constructor <;> intro he <;> cases he
+  have := ptop_level hl0 hnk (fuelFor (.lp :: (ts ++ [.rp])))
+    (by simp only [fuelFor, List.length_cons, List.length_append, List.length_nil]; omega)
+  simp [parseE, parseFuel, this]
+
 
 end SamVerif.Fmt
